@@ -119,7 +119,7 @@ def coq_project():
 def build(targets=None, timeout=1500):
     """Full .vo build (never -vos) of the development or of the given .vo targets."""
     coq_project()
-    cmd = ["make", "-j%d" % JOBS]
+    cmd = ["make", "-j%d" % JOBS, "COQC=timeout 900 coqc"]   # no single file may stall a check
     if targets:
         cmd += targets
     rc, out = sh(cmd, cwd=COQ, timeout=timeout)
